@@ -166,7 +166,9 @@ def run(pid, tier):
                       "generate_all judged part by part with jsonschema; distinct = description, non-trivial = has parameters")
     ck.notes["input_distribution"] = hist
     ck.assumptions = ["a null body cannot be told from an omitted one", "judge of the parts: jsonschema Draft202012Validator on the raw sample of each applied leaf"]
-    return ck.finish(trusted=["model of generate_all as a plan: coq/OpenApi.v; the label theorem is the instance of C03 for the request graph"])
+    return ck.finish(level="other", trusted=["model of generate_all as a plan: coq/OpenApi.v; the label theorem is the instance of C03 for the request graph"],
+                     explanation="part-by-part oracle on the implementation (jsonschema as judge of every carried value); the label theorem is the C03 instance for the request graph, "
+                                 "whose well-formedness is checked per graph by the model's wfb in ./check C14")
 
 
 def replay(pid, path):
